@@ -68,14 +68,25 @@ class ParsedAnsiControlSequenceString:
                 # This is the start of a Control Sequence Introducer command
                 i += len(ansi_control_sequence_introducer)
                 current_seq = ''
-                while i < len(s) and (ord(s[i]) < ansi_term_ord_range[0] or ord(s[i]) > ansi_term_ord_range[1]):
+                # Only parameter and intermediate bytes may come between the introducer and the final byte
+                while i < len(s) and ord(s[i]) >= 0x20 and ord(s[i]) < ansi_term_ord_range[0]:
                     current_seq += s[i]
                     i += 1
                 terminator = ''
+                aborted = False
                 if i < len(s):
-                    terminator = s[i]
-                    i += 1
-                if (terminator or allow_empty_terminator) and (acceptable_terminators is None or terminator in acceptable_terminators):
+                    if ord(s[i]) >= ansi_term_ord_range[0] and ord(s[i]) <= ansi_term_ord_range[1]:
+                        terminator = s[i]
+                        i += 1
+                    else:
+                        # Any other character (ex: another ESC) ends this sequence without completing it. That
+                        # character is looked at again since it may start the next sequence.
+                        aborted = True
+                if (
+                    not aborted and
+                    (terminator or allow_empty_terminator) and
+                    (acceptable_terminators is None or terminator in acceptable_terminators)
+                ):
                     current_csi = AnsiControlSequence(current_seq, terminator)
                     idx = len(self._s)
                     if idx in self.sequences:
